@@ -185,7 +185,7 @@ def classify(s, g, d):
     return cls, parts
 
 
-def check_string(rec, pvl, dialect, g, d, enc, s):
+def check_string(rec, pvl, dialect, g, d, enc, s, parsers=None):
     Token = pvl.token.Token
     cls, parts = classify(s, g, d)
     reason = input_reason(s, g, dialect)
@@ -270,6 +270,35 @@ def check_string(rec, pvl, dialect, g, d, enc, s):
             if preds[p]:
                 bad("number-or-datetime-accepted-as-name",
                     {"predicate": p, "class": cls}, f"{s!r}")
+    if cls in ("based", "decimal", "datetime") and \
+            re.fullmatch(r"[A-Za-z0-9:+\-.#_]+", s) and parsers is not None:
+        # ... also for the parser: neither as a statement's name nor - through
+        # the missing-value repair of the permissive parsers - as the name the
+        # parser makes up from the value in front of a second '='
+        LexerError = pvl.exceptions.LexerError
+        ParseError = pvl.exceptions.ParseError
+        for form, text in (("name", f"{s} = 1\nEND\n"),
+                           ("value-then-equals", f"a = {s} = 3\nEND\n"),
+                           ("value-then-equals-in-block",
+                            f"GROUP = g\n a = {s} = 3\nEND_GROUP\nEND\n")):
+            rec.count("parser_level_name_checks")
+            try:
+                with common.cpu_limit(20):
+                    m = pvl.loads(text, parser=parsers[dialect]())
+            except (LexerError, ParseError):
+                continue
+            except common.CaseTimeout:
+                rec.inconc(f"CPU budget exceeded on {text!r}")
+                continue
+            except Exception as e:
+                bad("parser-raised-undocumented-type",
+                    {"form": form, "exc": type(e).__name__}, f"{text!r}: {e!r}")
+                continue
+            # the text has a number / date / time where only a name can
+            # stand: no module can come out of it
+            bad("number-or-datetime-accepted-as-name",
+                {"predicate": "parser:" + form, "class": cls},
+                f"{text!r} loads: {[k for k, _ in list(m)]}")
     if preds["is_parameter_name"] and cls in ("keyword", "quoted"):
         bad("predicate-disagrees-with-class",
             {"predicate": "is_parameter_name", "class": cls,
@@ -350,6 +379,8 @@ def shard(i, n, tier, seed, rec, hb):
 def _shard(i, n, tier, seed, rec, hb, pvl, T, pristine):
     order = list(T.items())
     mixed = mixed_writers(pvl)
+    from ..gen_values import strict_parser
+    parsers = {d: (lambda d=d: strict_parser(pvl, d)) for d in T}
     for k, (src, s) in enumerate(strings_for(tier, seed, i, n)):
         hb.beat()
         rec.count(f"strings[{src}]")
@@ -361,7 +392,7 @@ def _shard(i, n, tier, seed, rec, hb, pvl, T, pristine):
         if k % 2:
             rot.reverse()
         for dialect, (g, d, enc) in rot:
-            cls = check_string(rec, pvl, dialect, g, d, enc, s)
+            cls = check_string(rec, pvl, dialect, g, d, enc, s, parsers)
             rec.case((dialect, s), not IDENT.match(s),
                      sample={"dialect": dialect, "string": s, "class": cls}
                      if rec.c["evaluations"] % 5003 == 0 else None)
@@ -392,6 +423,7 @@ def finish_kwargs(rec, tier):
                            "compared_with_a_pristine_process",
                            "writer_unquoted", "exclusivity_checks",
                            "number_or_time_never_a_name_checks",
+                           "parser_level_name_checks",
                            "class[keyword]", "class[quoted]", "class[based]",
                            "class[decimal]", "class[datetime]",
                            "class[unquoted]", "class[not-a-value]"),
